@@ -830,6 +830,39 @@ def h_take(I, st, fr, e, c, a):
     return [(st, cur, None)]
 
 
+def h_clear(I, st, fr, e, c, a):
+    place, cur = place_of(I, st, a[0])
+    I.write_place(st, place, VSeq(EMPTY))
+    return [(st, UNIT, None)]
+
+
+def h_last(I, st, fr, e, c, a):
+    v = deref(I, st, a[0])
+    if not isinstance(v, VSeq):
+        raise NotImplementedError("last on " + type(v).__name__)
+    n = t_len(v.t)
+    out = []
+    for s in I.assume(st.copy(), ("cmp", "eq", n)):
+        out.append((s, NONE, None))
+    for s in I.assume(st.copy(), ("cmp", "ge", n - 1)):
+        out.append((s, some(seq_elem(I, s, v, n - 1)), None))
+    return out
+
+
+def h_mem_replace(I, st, fr, e, c, a):
+    place, cur = place_of(I, st, a[0])
+    I.write_place(st, place, deref(I, st, a[1]) if isinstance(a[1], VMutRef) else a[1])
+    return [(st, cur, None)]
+
+
+def h_mem_swap(I, st, fr, e, c, a):
+    p1, v1 = place_of(I, st, a[0])
+    p2, v2 = place_of(I, st, a[1])
+    I.write_place(st, p1, v2)
+    I.write_place(st, p2, v1)
+    return [(st, UNIT, None)]
+
+
 def h_drain(I, st, fr, e, c, a):
     place, cur = place_of(I, st, a[0])
     I.write_place(st, place, VSeq(EMPTY))
@@ -1254,6 +1287,10 @@ TABLE = {
     "std::vec::Vec::<T, A>::pop": h_pop,
     "std::vec::Vec::<T, A>::drain": h_drain,
     "std::mem::take": h_take,
+    "std::mem::replace": h_mem_replace,
+    "std::mem::swap": h_mem_swap,
+    "std::vec::Vec::<T, A>::clear": h_clear,
+    "core::slice::<impl [T]>::last": h_last,
     "std::ops::Index::index": h_index,
     "std::ops::IndexMut::index_mut": h_index_mut,
     "std::boxed::Box::<T>::new": h_first_arg,
